@@ -81,7 +81,7 @@ Fixpoint drive (G : graph) (avoid : list N) (eager lifo : bool) (fuel : nat) (st
       let try_deliver (k : unit -> list event * state) :=
         match pick_not avoid dl with
         | Some i => match step G st (Deliver i) with
-                    | Some st' => if err st' then (rev acc, st) else drive G avoid eager lifo f st' (Deliver i :: acc)
+                    | Some st' => if err st' then (rev (Deliver i :: acc), st') else drive G avoid eager lifo f st' (Deliver i :: acc)
                     | None => (rev acc, st)
                     end
         | None => k tt
@@ -130,9 +130,28 @@ Definition stuck_schedule (G : graph) : option (list event) :=
     end in
   first policies.
 
+(* a schedule that ends in a panic state (a handler's hard rewrite or complete-now action finds its job gone) *)
+Definition confirms_panic (G : graph) (sched : list event) : bool :=
+  match run G (init G) sched with Some st => err st | None => false end.
+
+Definition panic_schedule (G : graph) : option (list event) :=
+  let fuel := (4 * length (all_ids G) + 16)%nat in
+  let policies :=
+    flat_map (fun avoid => [(avoid, false, false); (avoid, false, true); (avoid, true, false); (avoid, true, true)])
+             ([] :: map (fun h => [fst h]) (handlers G)) in
+  let fix first (ps : list (list N * bool * bool)) : option (list event) :=
+    match ps with
+    | [] => None
+    | (avoid, eager, lifo) :: t =>
+        let '(sched, st) := drive G avoid eager lifo fuel (init G) [] in
+        if err st && confirms_panic G sched then Some sched else first t
+    end in
+  first policies.
+
 Inductive finding :=
 | Unordered (w y : N) (schedule : option (list event))
-| Stuck (rejected_decls rejected_handlers rejected_statics : list N) (schedule : option (list event)).
+| Stuck (rejected_decls rejected_handlers rejected_statics : list N) (schedule : option (list event))
+| Panics (rejected_handlers : list N) (schedule : option (list event)).
 
 (* for a failing instance: the first uncertified pairs, each with a confirmed bad schedule if one is found, and, when
    the progress condition live_graph rejects the graph, what it rejects together with a confirmed stuck schedule *)
@@ -144,4 +163,5 @@ Definition search_instance (G : graph) (trace : list event) (order : list N) (pa
                 end)
       (firstn 3 (filter (fun p => negb (pair_ok (snd (closure G order)) p)) pairs))
   ++ (if live_instance G order then []
-      else let '(a, b, c) := live_failures G order in [Stuck a b c (stuck_schedule G)]).
+      else let '(a, b, c) := live_failures G order in [Stuck a b c (stuck_schedule G)])
+  ++ (if calm_graph G then [] else [Panics (calm_failures G) (panic_schedule G)]).
